@@ -24,7 +24,9 @@ type c08Case struct {
 
 var c08Tokens = []string{"ALL", "IMM", "CTOR", "TONL", "PKGO", "IMPL",
 	"IMM01", "IMM02", "IMM03", "IMM04", "CTOR01", "CTOR02", "CTOR03", "TONL01", "TONL02", "TONL03", "PKGO01", "PKGO02", "PKGO03", "IMPL01", "IMPL02", "IMPL03",
-	"IMM0", "IM", "IMM011", "AL", "*", "ALLL", "IMM*", "TONL1"}
+	"IMM0", "IM", "IMM011", "AL", "*", "ALLL", "IMM*", "TONL1",
+	// junk with interior blanks whose words are valid on their own (an item is never split at blanks)
+	"IMM 01", "CTOR x", "all of", "IMM\tTONL"}
 
 func c08RunInproc(pkgs []string, src map[string]string, raw *string) (map[string]bool, string) {
 	cfg, err := engine.ParseConfig(nil, nil, raw)
@@ -134,7 +136,7 @@ func TestC08(t *testing.T) {
 	const id = "C08"
 	checkWitnesses(t, id)
 	checkRegressions(t, id)
-	ev.Rule(id, "differential against the unrestricted run: run(S) must equal {d in run(no exclusion) : code(d) not matched by S under ALL>category>code} with a restated reference matcher. (a) exhaustive: every single token and every ordered pair of the 30-token alphabet {ALL, 5 categories, 16 codes, 8 junk tokens} on a fixed probe module producing all 16 codes and (singletons, pairs of codes / categories) on a second fixed module in which diagnostics of different codes are nested inside one expression, through the repository's own flag-value parser in-process; (b) rapid: random subsets in random case / spacing / empty items on rapid-generated programs; (c) the real binary with --config.exclude-checks and with GOGREEMENT_EXCLUDE_CHECKS on probe and generated programs. non-trivial = S changes the result and does not contain ALL, or S is junk-only on a non-empty baseline; distinct by (program hash, raw string)")
+	ev.Rule(id, "differential against the unrestricted run: run(S) must equal {d in run(no exclusion) : code(d) not matched by S under ALL>category>code} with a restated reference matcher. (a) exhaustive: every single token and every ordered pair of the 34-token alphabet {ALL, 5 categories, 16 codes, 12 junk tokens, four of them with interior blanks around valid words} on a fixed probe module producing all 16 codes and (singletons, pairs of codes / categories) on a second fixed module in which diagnostics of different codes are nested inside one expression, through the repository's own flag-value parser in-process; (b) rapid: random subsets in random case / spacing / empty items on rapid-generated programs; (c) the real binary with --config.exclude-checks and with GOGREEMENT_EXCLUDE_CHECKS on probe and generated programs. non-trivial = S changes the result and does not contain ALL, or S is junk-only on a non-empty baseline; distinct by (program hash, raw string)")
 	pkgs, src := probeSources()
 	base, why := c08RunInproc(pkgs, src, nil)
 	if why != "" {
